@@ -27,7 +27,7 @@ RULE = (
 )
 ASSUMPTIONS = [
     "invariant checker and legality model written from the rules in property C07 / circuit.py documentation",
-    "children for add_subcircuit / fill_blackbox come from a fixed library of 6 small circuits (one with a nested blackbox)",
+    "children for add_subcircuit / fill_blackbox come from a fixed library of 8 small circuits (one with a nested blackbox, two with the pin names of a blackbox type but other roles)",
 ]
 EXHAUSTIVE_NOTE = "core: every single call from a catalogue of ~60 calls on each of the 3 start states, and every ordered pair of calls from a 24-call sub-catalogue on the empty circuit"
 EXAMPLES = {"quick": 1500, "thorough": 30000}
@@ -35,7 +35,8 @@ EXAMPLES = {"quick": 1500, "thorough": 30000}
 UNIVERSE = ["a", "b", "c", "g", "h", "o", "u", "v", "u.x", "u.s", "u_x", "u_s", "u_g", "v.d", "1z", ""]
 TYPES = ["and", "or", "xor", "nand", "buf", "not", "input", "0", "1", "x", "bb_input", "bb_output",
          "foo", "AND", ""]
-BBTYPES = [["ha", ["x", "y"], ["s"]], ["ff", ["d", "clk"], ["q"]], ["src", [], ["s"]], ["ha2", ["x"], ["s", "g"]]]
+BBTYPES = [["ha", ["x", "y"], ["s"]], ["ff", ["d", "clk"], ["q"]], ["src", [], ["s"]], ["ha2", ["x"], ["s", "g"]],
+           ["both", ["p", "d"], ["p", "q"]]]
 INSTS = ["u", "v", "w", "u_x", "1u", ""]
 
 CHILDREN = [
@@ -46,6 +47,9 @@ CHILDREN = [
      "bbtypes": [["inner", ["d"], ["q"]]], "insts": [["x", 0, {"d": "x", "q": "m"}]]},
     {"name": "c4", "nodes": [["s", "1", [], True]], "bbtypes": [], "insts": []},
     {"name": "c5", "nodes": [["x", "input", [], True], ["s", "buf", ["x"], True], ["g", "nand", ["x", "s"], True]], "bbtypes": [], "insts": []},
+    # same io names as blackbox type 'ha' (x, y, s) but with the roles swapped / all outputs
+    {"name": "c6", "nodes": [["s", "input", [], False], ["x", "not", ["s"], True], ["y", "buf", ["s"], True]], "bbtypes": [], "insts": []},
+    {"name": "c7", "nodes": [["k", "1", [], False], ["x", "buf", ["k"], True], ["y", "not", ["k"], True], ["s", "and", ["x", "y"], True]], "bbtypes": [], "insts": []},
 ]
 
 STARTS = [
@@ -97,6 +101,7 @@ CATALOGUE = [
     ["add_subcircuit", 3, "u", {"s": "a"}],
     ["add_subcircuit", 5, "v", {"x": "a"}],
     ["fill_blackbox", "u", 0], ["fill_blackbox", "u", 1], ["fill_blackbox", "v", 0], ["fill_blackbox", "u", 3],
+    ["fill_blackbox", "u", 6], ["fill_blackbox", "u", 7], ["add_blackbox", 4, "v", {}], ["add_blackbox", 4, "w", {"d": "a", "q": "o"}],
 ]
 PAIRS = CATALOGUE[:6] + CATALOGUE[11:13] + CATALOGUE[18:22] + CATALOGUE[33:35] + CATALOGUE[40:44] + CATALOGUE[48:50] + CATALOGUE[56:58]
 
@@ -157,7 +162,7 @@ def _op():
                             _conns([x[0] for x in CHILDREN[i]["nodes"] if x[1] == "input" or x[3]]))
     )
     fill = st.builds(lambda nm, i: ["fill_blackbox", nm, i], st.sampled_from(INSTS + ["u", "v", "w"]),
-                     st.sampled_from([0, 0, 0, 1, 2, 2, 3, 3, 4, 5]))
+                     st.sampled_from([0, 0, 0, 1, 2, 2, 3, 3, 4, 5, 6, 7]))
     return st.one_of(add, add, add, conn, conn, disc, rem, so, abb, abb, asc, fill, fill)
 
 
@@ -227,7 +232,7 @@ def _stateful_case(draw, ctx):
             op = ["add_subcircuit", i, nm, conns]
         else:
             nm = draw(st.sampled_from(insts + ["u"])) if insts else "u"
-            op = ["fill_blackbox", nm, draw(st.sampled_from([0, 0, 1, 2, 3, 4, 5]))]
+            op = ["fill_blackbox", nm, draw(st.sampled_from([0, 0, 1, 2, 3, 4, 5, 6, 7]))]
         ops.append(op)
         _apply(c, op, children, bbs)
     return {"start": start, "ops": ops}
